@@ -3,6 +3,11 @@ C10 line-protocol driver (see harness/internal/c10/c10.go for the field list):
 
   req <srvT> <cih> <strict> <hT> <omit> <remote> <tls> <host> <hdrs> <tbl> <fails> <hops> <mode> <lb> <rt>
 
+  erq <via 1|2|3> <spoil -|hex> <the 15 fields of req>     the same request observed inside handle_errors routes (1|2) /
+                                                           handle_response routes (3), see Paths.lean and harness paths.go;
+                                                           answer of req ++ ` rh=<hex>` | `noprobe status=500`
+  cf <srvTP> <strict> <cih> <rpTP> <target> [<dir r|a|p>]  dir: reverse_proxy | forward_auth | php_fastcgi, answer ++ ` pre=…`
+
 `tbl` carries net/netip's answers for this case (every '%'-free substring of the remote
 address / a header value that `ParseAddr` accepts, its `String()`, and `Prefix.Contains`
 for each configured range); it instantiates the model's `Net` parameter.
@@ -11,6 +16,7 @@ for each configured range); it instantiates the model's `Net` parameter.
 Answers: `ip=<hex> tp=<0|1> ph=<hex> tm=<hex> lg=<hex> cm=<0|1> rm=<0|1> pp=<hex>/0|invalid xff=<H> xfp=<H> xfh=<H>[ | xff=… xfp=… xfh=…]*` (one triple per attempt) | `ip=<hex> tp=<0|1> err` | `bad-op`.
 -/
 import CaddyModel.C10.Model
+import CaddyModel.C10.Paths
 
 namespace CaddyModel.C10
 
@@ -151,8 +157,7 @@ def showList (nilWord : String) : Option (List Bytes) → String
   | some [] => "."
   | some l => ",".intercalate (l.map Hex.encode)
 
-def handleCF : List String → String
-  | [srvTP, strict, cih, rpTP, target] =>
+def handleCF5 (srvTP strict cih rpTP target : String) (wrapper : Option Wrapper) : String :=
     if target != "g" && target != "t" then "bad-op" else
     let st : Option (Nat × Bool) :=
       if strict == "0" then some (0, false) else if strict == "1" then some (1, false)
@@ -172,8 +177,21 @@ def handleCF : List String → String
           else body) <|
         "srv=" ++ showList "nil" a.srvRanges ++ " strict=" ++ (if a.strict then "1" else "0") ++
         " cih=" ++ showList "nil" a.clientIPHeaders ++ " rp=" ++ showList "nil" (some a.rpRanges) ++
-        " up=" ++ Hex.encode a.clientIPShorthand
+        " up=" ++ Hex.encode a.clientIPShorthand ++
+        -- the wrappers (forward_auth, php_fastcgi) build the reverse_proxy handler themselves: what they pre-filled
+        (match wrapper with
+         | none => ""
+         | some wr => " pre=" ++ (if (wrapperPrefill wr).isEmpty then "." else
+             ",".intercalate (((wrapperPrefill wr).map Hex.encode).mergeSort (fun a b => a < b || a == b))))
     | _, _, _, _ => "bad-op"
+
+def handleCF : List String → String
+  | [srvTP, strict, cih, rpTP, target] => handleCF5 srvTP strict cih rpTP target none
+  | [srvTP, strict, cih, rpTP, target, dir] =>
+    if dir == "r" then handleCF5 srvTP strict cih rpTP target (some .reverseProxy)
+    else if dir == "a" then handleCF5 srvTP strict cih rpTP target (some .forwardAuth)
+    else if dir == "p" then handleCF5 srvTP strict cih rpTP target (some .phpFastcgi)
+    else "bad-op"
   | _ => "bad-op"
 
 /-! `pp <allow> <deny> <fallback> <network> <peer> <claim> <tbl> <via>` — the PROXY protocol listener wrapper (see
@@ -206,7 +224,7 @@ def handlePP : List String → String
 
 /-- `req …` and `inc …` (same fields; `inc` asks for /outer whose template includes /inner through
     templates' httpInclude: the answer is what the virtual sub-request is attributed) -/
-def handleReq (inc : Bool) : List String → String
+def handleReq (inc : Bool) (via : Nat) (spoil : Option Bytes) : List String → String
   | [srvT, cih, strict, hT, omitF, remote, tls, host, hdrs, tbl, failsF, hopsF, modeF, lbF, rtF] =>
     -- `dyn:` = the same ranges answered by a request-scoped IPRangeSource (not among the probe's matcher ranges)
     let dyn := srvT.startsWith "dyn:"
@@ -232,7 +250,7 @@ def handleReq (inc : Bool) : List String → String
       -- provisioning (static source, reverse_proxy, matchers) rejects the configuration if an expression is invalid
       -- (the request-scoped source is fed parsed prefixes: an invalid expression there is a malformed case)
       if dyn && !provisionAccepts ((rangeExprs srvT).zip verdicts) then "bad-op" else
-      if !provisionAccepts (exprs.zip verdicts) then "provision-error" else
+      if !provisionAccepts (exprs.zip verdicts) then (if via ≠ 0 then "bad-op" else "provision-error") else
       -- mode: 0 GET over HTTP/1.1 | 1 websocket over HTTP/2; ServeHTTP's rewriting of the prepared request
       -- (method, Upgrade/Connection, :protocol, Sec-WebSocket-Key) does not touch a modelled field
       match parseTable ns nh tbl, parseSmall failsF, parseOps hopsF, (if modeF == "0" || modeF == "1" then (if lbF == "3" then some 3 else parseSmall lbF) else none) with
@@ -245,7 +263,19 @@ def handleReq (inc : Bool) : List String → String
           (((idxList 0 (if dyn then 0 else ns)).zip (rangeExprs srvT) ++ (idxList 1 nh).zip (rangeExprs hT)).map
             (fun pe => ⟨pe.1, (ipAndZone pe.2).2⟩)) ++
           (fixedZones.zipIdx.map (fun zi => ⟨⟨2, zi.2⟩, zi.1⟩))
-        if inc then
+        if via ≠ 0 then
+          -- `erq`: the same request observed inside a handle_errors route (via 1|2) / a handle_response route (via 3)
+          if fails ≠ 0 || ops ≠ Ops.none || lb ≠ 0 || modeF ≠ "0" then "bad-op" else
+          (fun (r : Option Req) =>
+            match r with
+            | none => "noprobe status=500"
+            | some r =>
+              showOut (routeOut (tableNet table) cfg r) (consumers (tableNet table) mranges r.conn r.clientIP) "-"
+                ((routeOut (tableNet table) cfg r).fwd.map (fun f => [f])) none ++
+              " rh=" ++ Hex.encode (remoteHostPlaceholder r.conn))
+            (if via = 3 then responseRouteReq (tableNet table) cfg ⟨remote, tls, host, early⟩ spoil wire
+             else some (errorRouteReq (tableNet table) cfg ⟨remote, tls, host, early⟩ spoil wire))
+        else if inc then
           (fun (o : Out) => "inner=" ++ Hex.encode (o.clientIP ++ [124] ++ asciiBytes (if o.trusted then "true" else "false")) ++ " status=200")
             (serveInclude (tableNet table) cfg ⟨remote, tls, host, early⟩ wire)
         else
@@ -296,8 +326,18 @@ def handle : List String → String
   | "seq" :: rest => handleSeq rest
   | "cf" :: rest => handleCF rest
   | "pp" :: rest => handlePP rest
-  | "req" :: rest => handleReq false rest
-  | "inc" :: rest => handleReq true rest
+  | "req" :: rest => handleReq false 0 none rest
+  | "inc" :: rest => handleReq true 0 none rest
+  | "erq" :: via :: spoil :: rest =>
+    -- `erq <via 1|2|3> <spoil: - | hex> <the fields of req>` (harness/internal/c10/paths.go)
+    match (if via == "1" then some 1 else if via == "2" then some 2 else if via == "3" then some 3 else none),
+          (if spoil == "-" then some none else
+            match Hex.decode spoil with
+            | some [] => none
+            | some b => some (some b)
+            | none => none) with
+    | some v, some sp => handleReq false v sp rest
+    | _, _ => "bad-op"
   | _ => "bad-op"
 
 /-- counter-example lines replayed on the implementation on every run (see Witness.lean) -/
